@@ -1,14 +1,216 @@
-(** C09 - Harris-Michael containers: property theorems (statements only). *)
-From Coq Require Import NArith List Bool.
+(** C09 - iterators of harris_michael_list_based_set: property theorems (statements only; the proofs live in
+    Proof/HmlItInv.v).  [HmlItDefs] extends the step-level model [HmlDefs] of
+    harris_michael_list_based_set<long, reclaimer<GC>> by the iterator operations begin(), find(key) returning
+    an iterator, operator++, operator*, reset(), erase(iterator); each thread owns one iterator variable
+    ([it_sv t] = info.save / info.prev, [it_cur t] = info.cur; 0 = null, i.e. end()).  The model is tied to the
+    code by trace correspondence (driver instance [hmlit], harness h_hm with -DXV_RECL=GC, operations
+    ins / del / has / itb / itf k / itn / itd / ite / itr).  [reach xinit xstep st] quantifies over any number of
+    threads, any program, any schedule.  insert / erase(key) / contains are executed by [HmlDefs.step] itself on
+    the component [base st].
+
+    Ghosts of the traversal of thread t (from the first step of itb / itf until end() or itr):
+    [g_yield st t] the positions the iterator took (key, node, [y_wit]: the key was in [g_abs] at an instant of
+    the traversal not later than the yield, [y_reach]: the node was reachable from head at the yield, [y_lin]: length of [g_lin] at the yield); [g_lo] how the traversal
+    was started; [g_trav] not abandoned; [g_start] the abstract set at its first step; [g_always] the keys that
+    were in the abstract set in every state of the traversal.
+
+    Three statements of the informal property are FALSE for the real algorithm (refuted on concrete
+    schedules that the implementation reproduces): see the [_refuted] theorems; the true versions are proved. *)
+From Coq Require Import NArith List Sorted.
+From XV Require Import Base.Word Conc.Lts Conc.Ev Conc.Solo Model.HmlDefs Proof.HmlInv Model.HmlItDefs Proof.HmlItInv.
+Import ListNotations.
 Local Open Scope N_scope.
 
-(** the ordering predicate of harris_michael_hash_map with memoize_hash ("hash >= h and key >= k" is
-    used as the stop condition of find): it is monotone in both components.  (Placeholder obligation;
-    the sequential/structural theorems of the list model are added by Proof/HmList.v.) *)
-Theorem C09_stop_monotone : forall h k h1 k1 h2 k2 : N,
-  (h <=? h1) && (k <=? k1) = true -> h1 <= h2 -> k1 <= k2 -> (h <=? h2) && (k <=? k2) = true.
-Proof.
-  intros h k h1 k1 h2 k2 H H1 H2. apply andb_true_iff in H. destruct H as [A B].
-  apply N.leb_le in A. apply N.leb_le in B. apply andb_true_iff. split; apply N.leb_le; eapply N.le_trans; eauto.
-Qed.
-Print Assumptions C09_stop_monotone.
+(** the structural / abstraction invariant of Proof/HmlInv.v holds for the list in the extended system *)
+Theorem C09_hmlit_base_inv : forall st, reach xinit xstep st -> Inv (base st).
+Proof. exact hmlit_base_inv. Qed.
+Print Assumptions C09_hmlit_base_inv.
+
+Theorem C09_hmlit_structure : forall st, reach xinit xstep st ->
+  head (base st) = hd 0 (chain (base st)) /\
+  linksto (nnext (base st)) (chain (base st)) 0 /\
+  StronglySorted (fun x y => nkey (base st) x < nkey (base st) y) (chain (base st)) /\
+  NoDup (chain (base st)) /\
+  (forall x, In x (chain (base st)) -> x <> 0 /\ x < nalloc (base st)) /\
+  nmark (base st) 0 = false.
+Proof. exact hmlit_structure. Qed.
+Print Assumptions C09_hmlit_structure.
+
+Theorem C09_hmlit_retired : forall st, reach xinit xstep st ->
+  NoDup (g_retired (base st)) /\
+  (forall x, In x (g_retired (base st)) ->
+     ~ In x (chain (base st)) /\ nmark (base st) x = true /\ x <> 0 /\ x < nalloc (base st)) /\
+  (forall x, nmark (base st) x = true ->
+     (In x (chain (base st)) \/ In x (g_retired (base st))) /\ In x (del_nodes (g_lin (base st)))) /\
+  (forall x, In x (chain (base st)) \/ In x (g_retired (base st)) -> In x (ins_nodes (g_lin (base st)))) /\
+  g_abs (base st) = apply_lin (g_lin (base st)) /\
+  (forall k, In k (g_abs (base st)) <-> In k (abs_keys (base st))).
+Proof. exact hmlit_retired. Qed.
+Print Assumptions C09_hmlit_retired.
+
+(** SAFETY: every node an iterator / an iterator operation in progress refers to was allocated and is null /
+    the head sentinel, reachable, or retired (retired nodes are never freed: GC reclaimer instance = what C01
+    guarantees for guarded nodes) *)
+Theorem C09_it_node_safe : forall st, reach xinit xstep st -> forall t x, In x (iheld st t) ->
+  x < nalloc (base st) /\ (x = 0 \/ In x (chain (base st)) \/ In x (g_retired (base st))).
+Proof. exact it_node_safe. Qed.
+Print Assumptions C09_it_node_safe.
+
+(** every atomic access of an iterator operation goes to such a block *)
+Theorem C09_it_access_safe : forall s t s' es,
+  reach xinit xstep s -> xstep s (XStep t) = Some (s', es) -> ith s t <> IIdle ->
+  forall e x, In e es -> ev_block e = Some x ->
+    x < nalloc (base s) /\ (x = 0 \/ In x (chain (base s)) \/ In x (g_retired (base s))).
+Proof. exact it_access_safe. Qed.
+Print Assumptions C09_it_access_safe.
+
+(** the iterator variable: key order w.r.t. its predecessor, and it is the last recorded position *)
+Theorem C09_it_position : forall st, reach xinit xstep st -> forall t, it_cur st t <> 0 ->
+  (it_sv st t <> 0 -> nkey (base st) (it_sv st t) < nkey (base st) (it_cur st t)) /\
+  exists ys0 y, g_yield st t = ys0 ++ [y] /\ y_node y = it_cur st t /\ y_key y = nkey (base st) (it_cur st t).
+Proof. exact it_position. Qed.
+Print Assumptions C09_it_position.
+
+(** operator*: one step without atomic access, returns the key of the node the iterator stands on *)
+Theorem C09_it_deref : forall s t, ith s t = IBegin OItD ->
+  exists s', xstep s (XStep t) = Some (s', [EStart t 6 []; ERet t (6 :: pos_res (base s) (it_cur s t))]) /\
+             ith s' t = IIdle /\ it_cur s' t = it_cur s t /\ base s' = base s.
+Proof. exact it_deref. Qed.
+Print Assumptions C09_it_deref.
+
+(** YIELDS: every recorded position is a node linked by a recorded insert before the yield, and it was reachable
+    from head at the instant the iterator moved onto it ([y_reach]); its witness flag is true, or the node had
+    been erased (recorded erase) before the iterator moved onto it (and was not unlinked yet) *)
+Theorem C09_it_yield_sound : forall st, reach xinit xstep st -> forall t y, In y (g_yield st t) ->
+  nkey (base st) (y_node y) = y_key y /\ y_node y <> 0 /\
+  (In (y_node y) (chain (base st)) \/ In (y_node y) (g_retired (base st))) /\
+  (y_lin y <= length (g_lin (base st)))%nat /\
+  (exists j t', (j < y_lin y)%nat /\ nth_error (g_lin (base st)) j = Some (LIns t' (y_key y) (y_node y))) /\
+  y_reach y = true /\
+  (y_wit y = true \/
+   exists j t', (j < y_lin y)%nat /\ nth_error (g_lin (base st)) j = Some (LDel t' (y_key y) (y_node y))).
+Proof. exact it_yield_sound. Qed.
+Print Assumptions C09_it_yield_sound.
+
+(** ... and a true witness flag means: the key was in the abstract set in some state of the traversal
+    ([trav_path u s0 l s]: u took the first step of itb / itf from s0, l = the later states up to s) *)
+Theorem C09_it_yield_was_member : forall u s0 l s, reach xinit xstep s0 -> trav_path u s0 l s ->
+  forall y, In y (g_yield s u) -> y_wit y = true ->
+  exists s1, In s1 (s0 :: l) /\ In (y_key y) (g_abs (base s1)).
+Proof. exact it_yield_was_member. Qed.
+Print Assumptions C09_it_yield_was_member.
+
+(** REFUTED: "every element it yields was in the container at some instant during the traversal" *)
+Theorem C09_it_yield_was_member_refuted :
+  ~ (forall u s0 l s, reach xinit xstep s0 -> trav_path u s0 l s ->
+       forall y, In y (g_yield s u) -> exists s1, In s1 (s0 :: l) /\ In (y_key y) (g_abs (base s1))).
+Proof. exact it_yield_was_member_refuted. Qed.
+Print Assumptions C09_it_yield_was_member_refuted.
+
+(** NO DUPLICATES (true version): keys never decrease; an equal key is yielded again only by a different node
+    linked by an insert linearized after the first yield and before the second *)
+Theorem C09_it_no_duplicate : forall st, reach xinit xstep st -> forall t i j y1 y2, (i < j)%nat ->
+  nth_error (g_yield st t) i = Some y1 -> nth_error (g_yield st t) j = Some y2 ->
+  y_key y1 < y_key y2 \/
+  (y_key y1 = y_key y2 /\ y_node y1 <> y_node y2 /\
+   exists m t', nth_error (g_lin (base st)) m = Some (LIns t' (y_key y2) (y_node y2)) /\
+                (y_lin y1 <= m < y_lin y2)%nat).
+Proof. exact it_no_duplicate. Qed.
+Print Assumptions C09_it_no_duplicate.
+
+(** REFUTED: "within one traversal the yielded keys are strictly increasing" *)
+Theorem C09_it_no_duplicate_strict_refuted :
+  ~ (forall st t i j y1 y2, reach xinit xstep st -> (i < j)%nat ->
+       nth_error (g_yield st t) i = Some y1 -> nth_error (g_yield st t) j = Some y2 -> y_key y1 < y_key y2).
+Proof. exact it_no_duplicate_strict_refuted. Qed.
+Print Assumptions C09_it_no_duplicate_strict_refuted.
+
+(** COMPLETENESS (state level): all keys of [g_always] (greater than k for a traversal started by find k) up to
+    the key of the current position - all of them when the iterator has reached end() - have been yielded *)
+Theorem C09_it_complete_upto : forall st, reach xinit xstep st -> forall t k,
+  g_trav st t = true -> in_start (ith st t) = false ->
+  In k (g_always st t) -> above (g_lo st t) k -> (it_cur st t = 0 \/ k <= nkey (base st) (it_cur st t)) ->
+  In k (map y_key (g_yield st t)).
+Proof. exact it_complete_upto. Qed.
+Print Assumptions C09_it_complete_upto.
+
+(** meaning of the ghosts: [g_always] = the keys that were in the abstract set in every state of the traversal *)
+Theorem C09_it_always_exact : forall u s0 l s, trav_path u s0 l s ->
+  g_start s u = g_abs (base s0) /\
+  forall k, In k (g_always s u) <-> (forall s1, In s1 (s0 :: l) -> In k (g_abs (base s1))).
+Proof. exact it_always_exact. Qed.
+Print Assumptions C09_it_always_exact.
+
+(** COMPLETENESS (trace level) *)
+Theorem C09_it_complete : forall u s0 l s, reach xinit xstep s0 -> trav_path u s0 l s ->
+  g_trav s u = true -> in_start (ith s u) = false -> it_cur s u = 0 ->
+  forall k, (forall s1, In s1 (s0 :: l) -> In k (g_abs (base s1))) ->
+    (forall k0, ith s0 u = IBegin (OItF k0) -> k0 < k) ->
+    In k (map y_key (g_yield s u)).
+Proof. exact it_complete_trace. Qed.
+Print Assumptions C09_it_complete.
+
+(** ERASE(ITERATOR) IS EXACT: the only step of the call that changes marks / the abstract set is the successful
+    mark CAS on exactly the node the iterator stands on, which removes exactly its key *)
+Theorem C09_it_erase_exact : forall s t s' es, reach xinit xstep s -> xstep s (XStep t) = Some (s', es) ->
+  in_erase (ith s t) = true ->
+  let b := base s in let b' := base s' in let cur := it_cur s t in
+  (ith s' t <> IIdle -> it_cur s' t = cur /\ it_sv s' t = it_sv s t /\ in_erase (ith s' t) = true) /\
+  (((forall x, nmark b' x = nmark b x) /\ g_abs b' = g_abs b /\ g_lin b' = g_lin b) \/
+   (exists nx, ith s t = X2 nx /\ ith s' t = X3 nx /\ cur <> 0 /\ nmark b cur = false /\ In cur (chain b) /\
+      In (nkey b cur) (g_abs b) /\ g_abs b' = remk (nkey b cur) (g_abs b) /\
+      g_lin b' = g_lin b ++ [LDel t (nkey b cur) cur] /\
+      (forall x, nmark b' x = if x =? cur then true else nmark b x))).
+Proof. exact it_erase_exact. Qed.
+Print Assumptions C09_it_erase_exact.
+
+(** return of erase(iterator): the node is marked, unlinked and retired; the returned iterator is end(), or stands
+    on a greater key, or on a different node with the same key (re-inserted, see C09_it_no_duplicate) *)
+Theorem C09_it_erase_return : forall s t s' es, reach xinit xstep s -> xstep s (XStep t) = Some (s', es) ->
+  in_erase (ith s t) = true -> ith s' t = IIdle -> it_cur s t <> 0 ->
+  let o := it_cur s t in let n := it_cur s' t in let b' := base s' in
+  nmark b' o = true /\ ~ In o (chain b') /\ In o (g_retired b') /\
+  In (ERet t (7 :: 1 :: nkey (base s) o :: pos_res (base s) n)) es /\
+  (n = 0 \/ nkey b' o < nkey b' n \/ (nkey b' o = nkey b' n /\ n <> o)).
+Proof. exact it_erase_return. Qed.
+Print Assumptions C09_it_erase_return.
+
+(** REFUTED: "erase(iterator) returns an iterator to a node whose key is greater" *)
+Theorem C09_it_erase_greater_refuted :
+  ~ (forall s t s' es, reach xinit xstep s -> xstep s (XStep t) = Some (s', es) ->
+       in_erase (ith s t) = true -> ith s' t = IIdle -> it_cur s t <> 0 ->
+       it_cur s' t = 0 \/ nkey (base s') (it_cur s t) < nkey (base s') (it_cur s' t)).
+Proof. exact it_erase_greater_refuted. Qed.
+Print Assumptions C09_it_erase_greater_refuted.
+
+(** C16 for the iterator operations: solo termination with an explicit bound *)
+Theorem C16_it_solo : forall s t, reach xinit xstep s -> th (base s) t = Idle ->
+  finishes_within xstep XStep xidle t (it_cost s t) s.
+Proof. exact it_solo. Qed.
+Print Assumptions C16_it_solo.
+
+Theorem C16_it_solo_bound : forall s t, reach xinit xstep s -> th (base s) t = Idle ->
+  finishes_within xstep XStep xidle t (4 * length (chain (base s)) + 8) s.
+Proof. exact it_solo_bound. Qed.
+Print Assumptions C16_it_solo_bound.
+
+Theorem C16_itn_solo_start : forall s t s' es, reach xinit xstep s -> xstep s (XStart t OItN) = Some (s', es) ->
+  finishes_within xstep XStep xidle t
+    (if it_cur s t =? 0 then 1 else if nmark (base s) (it_cur s t) then 4 * length (chain (base s)) + 5 else 3) s'.
+Proof. exact itn_solo_start. Qed.
+Print Assumptions C16_itn_solo_start.
+
+(** non-vacuity: a complete traversal with a concurrent erase of the element the iterator stands on, an insert
+    right behind it and an erase through the iterator *)
+Theorem C09_hmlit_nonvacuous :
+  let st := xst ex_trav in
+  snd (xrun ex_trav) = 0%nat /\
+  chain (base st) = [2; 3] /\ g_abs (base st) = [30; 20] /\ g_retired (base st) = [1; 4] /\
+  g_lin (base st) = [LIns 1 10 1; LIns 1 20 2; LIns 1 30 3; LDel 2 10 1; LIns 1 15 4; LDel 3 15 4] /\
+  g_yield st 3%nat = [mkY 10 1 true true 3; mkY 15 4 true true 5; mkY 20 2 true true 6; mkY 30 3 true true 6] /\
+  it_cur st 3%nat = 0 /\ g_trav st 3%nat = true /\ g_lo st 3%nat = None /\
+  g_start st 3%nat = [30; 20; 10] /\ g_always st 3%nat = [30; 20] /\
+  rets ex_trav = [ERet 1 [0; 1]; ERet 1 [0; 1]; ERet 1 [0; 1]; ERet 3 [3; 1; 10]; ERet 2 [1; 1]; ERet 1 [0; 1];
+                  ERet 3 [5; 1; 15]; ERet 3 [7; 1; 15; 1; 20]; ERet 3 [5; 1; 30]; ERet 3 [5; 0]].
+Proof. exact ex_trav_state. Qed.
+Print Assumptions C09_hmlit_nonvacuous.
